@@ -148,6 +148,31 @@ def main():
                                         break
                                 if bad:
                                     break
+                    if not bad and mode == "so" and n <= 8:
+                        # history: the grid of a tile must not depend on what was asked before — a point lookup inside the
+                        # tile, the caller modifying the arrays it got, then the same question again
+                        try:
+                            keep_lon, keep_lat = np.array(lons, copy=True), np.array(lats, copy=True)
+                            i0, j0 = rng.randrange(256), rng.randrange(256)
+                            plat, plon = float(keep_lat[i0, j0]), float(keep_lon[i0, j0])
+                            toast.toast_pixel_for_point(n, plat, plon, coordsys=cs)
+                            l2, b2 = toast.toast_tile_get_coords(toast.create_single_tile(Pos(n, x, y), coordsys=cs))
+                            if not (np.array_equal(l2, keep_lon) and np.array_equal(b2, keep_lat)):
+                                dl = np.abs(np.asarray(l2) - keep_lon)
+                                bad = (f"after toast_pixel_for_point({n}, lat {plat!r}, lon {plon!r}) the grid of the same tile changed "
+                                       f"(longitudes differ by up to {float(np.max(dl)):.3g} rad)")
+                            else:
+                                l2[...] = 0.0
+                                b2[...] = 0.0
+                                l3, b3 = toast.toast_tile_get_coords(toast.create_single_tile(Pos(n, x, y), coordsys=cs))
+                                if not (np.array_equal(l3, keep_lon) and np.array_equal(b3, keep_lat)):
+                                    bad = "after the caller overwrote the arrays it had been given, the grid of the same tile changed (the result aliases retained state)"
+                            h.count("history", "lookup-then-grid")
+                        except Exception as e:
+                            bad = f"grid / point lookup / grid on one tile raised {type(e).__name__}: {e}"
+                        if bad:
+                            h.violation(f"history:{mode}", f"{nm} system, tile {pos}: {bad}", input={"pos": pos, "system": nm, "history": ["toast_tile_get_coords", "toast_pixel_for_point", "toast_tile_get_coords"]}, observed=bad)
+                            bad = None
                     if bad:
                         h.violation(f"pixels:{mode}", f"{nm} system, tile {pos} ({mode}): {bad}", input={"pos": pos, "system": nm, "mode": mode}, observed=bad)
                     h.case(("coords", mode, nm, pos))
